@@ -11,7 +11,7 @@ def left_interp(interp_indices, interp_values, rhs):
     is_vector = rhs.ndimension() == 1
 
     if is_vector:
-        res = rhs.index_select(0, interp_indices.view(-1)).view(*interp_values.size())
+        res = rhs.index_select(0, interp_indices.reshape(-1)).view(*interp_values.size())
         res = res.mul(interp_values)
         res = res.sum(-1)
         return res
